@@ -279,15 +279,19 @@ def write_evidence(prop, tier, seed, coverage, wall, violations, assumptions=Non
         "wall_s": round(wall, 2),
         "violations": violations,
     }
-    os.makedirs(os.path.join(VERIF, "evidence"), exist_ok=True)
-    with open(os.path.join(VERIF, "evidence", prop + ".json"), "w") as f:
+    # VERIF_OUT redirects evidence and replays (used only by tools/cross_matrix.sh, which runs the checks against
+    # scratch worktrees carrying a seeded change; the registered commands never set it)
+    evdir = os.path.join(os.environ.get("VERIF_OUT", VERIF), "evidence")
+    os.makedirs(evdir, exist_ok=True)
+    with open(os.path.join(evdir, prop + ".json"), "w") as f:
         json.dump(ev, f, indent=1)
 
 
 def write_replay(prop, tag, content):
-    os.makedirs(os.path.join(VERIF, "replays"), exist_ok=True)
+    rdir = os.path.join(os.environ.get("VERIF_OUT", VERIF), "replays")
+    os.makedirs(rdir, exist_ok=True)
     h = hashlib.sha1(content.encode()).hexdigest()[:10]
-    p = os.path.join(VERIF, "replays", "%s-%s-%s.case" % (prop, tag, h))
+    p = os.path.join(rdir, "%s-%s-%s.case" % (prop, tag, h))
     with open(p, "w") as f:
         f.write(content)
     return p
